@@ -198,11 +198,14 @@ def execute(mat, ctx):
     for j in range(nm + 1):
         if not has_cit:
             break
-        for badcit in ("7", "[99]", "[x]"):
+        for badcit in ("7", "[99]", "[x]", "BARE:[1]"):
             spec = copy.deepcopy(specs[j])
             spec["features"] = list(spec["features"]) + [{"type": "misc_feature", "parts": [[0, 1, 1]], "quals": {"uid": ["bad.%d" % j], "citation": [badcit]}}]
             recs = list(shared)
             recs[j] = gen.make_record(spec)
+            if badcit.startswith("BARE:"):
+                # a hand-made feature whose citation qualifier is a bare string instead of a list
+                recs[j].features[-1].qualifiers["citation"] = badcit[5:]
             v, ms = ents(recs)
             ctx.count("c07_natural_failures")
             ctx.count("c07_bad_citation_failures")
